@@ -21,6 +21,14 @@ I->S: the same executions plus the points of a seeded generator (random operands
 
 The built-in table of the spec is compared with /repo/docs/source/reference/std/** in both
 directions, and a call of every entry must compile.
+
+The generic built-ins (everything on List[T], plus the operators +, ==, !=, the for loop and the
+list literal) have a TYPE-ARGUMENT dimension in the spec: NoCrash.ElemSize names the element types
+per size class of their representation (zero-sized `()`, 1 / 2 / 4 / 8 byte scalars, String, nested
+list, Option, record of mixed sizes) and NoCrash.LenOf the length classes (0, 1, 2, 3, 9 = past the
+first allocation).  TLC enumerates built-in x element type x length classes x index classes;
+python only knows how a value of each element type is written / fetched from the host
+(list_family_guard: every combination must occur, else ToolError).
 """
 import ipaddress
 import json
@@ -43,7 +51,12 @@ I64MAX = (1 << 63) - 1
 OPSYM = {"add": "+", "sub": "-", "mul": "*", "div": "/", "rem": "%",
          "eq": "==", "ne": "!=", "lt": "<", "le": "<=", "gt": ">", "ge": ">="}
 COMPARE = {"eq", "ne", "lt", "le", "gt", "ge"}
-ELEM_TYPE = {"u8": "u8", "u64": "u64", "str": "String", "char": "char"}
+# element kind of the spec (NoCrash.ElemSize) -> roto type (representation only; the kinds, their size classes and
+# the length classes are read from the spec: MCNoCrash prints them, see spec_domain)
+ELEM_TYPE = {"u8": "u8", "u64": "u64", "str": "String", "char": "char", "unit": "()", "u16": "u16", "u32": "u32",
+             "list_u64": "List[u64]", "opt_u64": "Option[u64]", "rec": "R"}
+REC_DECL = "record R { a: u8, b: u64, c: String, d: u16 }\n"
+REC_FIELDS = [("a", "u8"), ("b", "u64"), ("c", "str"), ("d", "u16")]
 
 
 def signed(t):
@@ -131,14 +144,33 @@ PFX_CLASS = {"v4/0": ("0.0.0.0", 0), "v4/24": ("10.1.2.0", 24), "v4/32": ("10.1.
 ASN_CLASS = {"0": 0, "65535": 65535, "65536": 65536, "u32max": (1 << 32) - 1}
 BIGNUM = {"0": 0, "1": 1, "2": 2, "3": 3, "2^16": 1 << 16, "2^31": 1 << 31, "2^32": 1 << 32, "2^63": 1 << 63,
           "u64max": (1 << 64) - 1}
+U64MAX = (1 << 64) - 1
+# python values: unit = (), optional = None | int, nested list = list of int, record = (a, b, c, d)
 LIST_CLASS = {
-    "u8": {"empty": [], "one": [200], "three": [0, 255, 7], "nine": list(range(1, 10))},
-    "u64": {"empty": [], "one": [1 << 63], "three": [0, (1 << 64) - 1, 7], "nine": [k * 1000003 for k in range(9)]},
-    "str": {"empty": [], "one": ["héllo"], "three": ["", "a,b", "ö€"], "nine": ["s%d" % k for k in range(9)]},
-    "char": {"empty": [], "one": [0xE9], "three": [0x61, 0x20AC, 0x1F600], "nine": list(range(0x61, 0x6A))},
+    "u8": {"empty": [], "one": [200], "two": [0, 255], "three": [0, 255, 7], "nine": list(range(1, 10))},
+    "u64": {"empty": [], "one": [1 << 63], "two": [U64MAX, 0], "three": [0, U64MAX, 7],
+            "nine": [k * 1000003 for k in range(9)]},
+    "str": {"empty": [], "one": ["héllo"], "two": ["", "ö€x"], "three": ["", "a,b", "ö€"],
+            "nine": ["s%d" % k for k in range(9)]},
+    "char": {"empty": [], "one": [0xE9], "two": [0x61, 0x1F600], "three": [0x61, 0x20AC, 0x1F600],
+             "nine": list(range(0x61, 0x6A))},
+    "unit": {"empty": [], "one": [()], "two": [()] * 2, "three": [()] * 3, "nine": [()] * 9},
+    "u16": {"empty": [], "one": [65535], "two": [0, 65535], "three": [0, 65535, 7], "nine": [k * 7001 for k in range(9)]},
+    "u32": {"empty": [], "one": [1 << 31], "two": [0, (1 << 32) - 1], "three": [0, (1 << 32) - 1, 7],
+            "nine": [k * 100003 for k in range(9)]},
+    "list_u64": {"empty": [], "one": [[1, 2, 3]], "two": [[], [U64MAX]], "three": [[], [1], [2, 3]],
+                 "nine": [[k] * k for k in range(9)]},
+    "opt_u64": {"empty": [], "one": [None], "two": [0, None], "three": [U64MAX, None, 7],
+                "nine": [None if k % 3 == 0 else k * 1000003 for k in range(9)]},
+    "rec": {"empty": [], "one": [(200, 1 << 63, "héllo", 65535)], "two": [(0, 0, "", 0), (255, U64MAX, "ö€x", 65535)],
+            "three": [(0, U64MAX, "", 7), (255, 0, "a,b", 0), (7, 7, "ö€", 65535)],
+            "nine": [(k, k * 1000003, "s%d" % k, k * 7001) for k in range(9)]},
 }
-ABSENT = {"u8": 99, "u64": 123456789, "str": "absent✗", "char": 0x5A}
-ELEM_VT = {"u8": "u8", "u64": "u64", "str": "str", "char": "char"}
+# a value that is in none of the lists above (a single-valued type has none: NoCrash.SingleValued, the spec allows
+# "absent" only next to an empty receiver, where the only value is absent)
+ABSENT = {"u8": 99, "u64": 123456789, "str": "absent✗", "char": 0x5A, "unit": (), "u16": 999, "u32": 123456,
+          "list_u64": [9, 9, 9], "opt_u64": 123456789, "rec": (9, 9, "absent✗", 9)}
+ELEM_VT = {e: e for e in ELEM_TYPE}
 
 
 def unit_len(name, recv):
@@ -217,6 +249,19 @@ def concretize(point, rng):
 
 
 def rnd_elem(e, rng):
+    if e == "unit":
+        return ()
+    if e == "u16":
+        return rng.choice([0, 65535, rng.randrange(1 << 16)])
+    if e == "u32":
+        return rng.choice([0, (1 << 32) - 1, rng.getrandbits(32)])
+    if e == "list_u64":
+        return [rng.choice([0, U64MAX, rng.getrandbits(64)]) for _ in range(rng.choice([0, 0, 1, 2, 5, 9]))]
+    if e == "opt_u64":
+        return rng.choice([None, None, 0, U64MAX, rng.getrandbits(64)])
+    if e == "rec":
+        return (rng.randrange(256), rng.choice([0, U64MAX, rng.getrandbits(64)]),
+                "".join(chr(rnd_cp(rng)) for _ in range(rng.randrange(0, 6))), rng.randrange(1 << 16))
     if e == "u8":
         return rng.randrange(256)
     if e == "u64":
@@ -246,6 +291,12 @@ def enc(vt, v):
     """value -> JSON understood by the providers of harness/src/bin/c10.rs"""
     if vt.startswith("list_"):
         return [enc(vt[5:], x) for x in v]
+    if vt == "unit":
+        return "()"
+    if vt == "opt_u64":
+        return None if v is None else str(v)
+    if vt == "rec":
+        raise vlib.ToolError("the host cannot make a record: its fields are fetched one by one (fetch)")
     if vt == "bool":
         return v
     if vt == "str" or vt == "ip":
@@ -312,15 +363,33 @@ def lit(vt, v):
         return "%s / %d" % v
     if vt == "asn":
         return "AS%d" % v
+    if vt == "unit":
+        return "()"
+    if vt == "opt_u64":
+        return "None" if v is None else "Some(%s)" % lit_int(v, "u64")
+    if vt == "rec":
+        return "R { %s }" % ", ".join("%s: %s" % (f, lit(ft, x)) for (f, ft), x in zip(REC_FIELDS, v))
     if vt.startswith("list_"):
         return "[" + ", ".join(lit(vt[5:], x) for x in v) + "]"
     raise vlib.ToolError("no literal for %r" % vt)
 
 
+def fetch(vt, v, ins):
+    """expression that obtains the value from the host at run time (mode "arg"); appends the inputs it needs"""
+    if vt == "rec":
+        return "R { %s }" % ", ".join("%s: %s" % (f, fetch(ft, x, ins)) for (f, ft), x in zip(REC_FIELDS, v))
+    if vt == "list_rec":
+        return "[" + ", ".join(fetch("rec", x, ins) for x in v) + "]"
+    ins.append({"t": vt, "v": enc(vt, v)})
+    return "in_%s(%d)" % (vt, len(ins) - 1)
+
+
 VT_TYPE = {"str": "String", "ip": "IpAddr", "pfx": "Prefix", "asn": "Asn", "bool": "bool", "char": "char",
-           "list_u8": "List[u8]", "list_u64": "List[u64]", "list_char": "List[char]", "list_str": "List[String]"}
+           "unit": "()", "opt_u64": "u64?", "rec": "R"}
 for _t in INT_TYPES + FLOAT_TYPES:
     VT_TYPE[_t] = _t
+for _e, _t in ELEM_TYPE.items():
+    VT_TYPE["list_" + ELEM_VT[_e]] = "List[%s]" % _t
 
 
 # --------------------------------------------------------------------------------------
@@ -388,6 +457,7 @@ for _t in INT_TYPES + FLOAT_TYPES:
 OP_SYNTAX = {
     "op:String.+": ("{0} + {1}", "String"), "op:String.==": ("{0} == {1}", "bool"), "op:String.!=": ("{0} != {1}", "bool"),
     "op:List.+": ("{0} + {1}", "List[T]"), "op:List.==": ("{0} == {1}", "bool"), "op:List.!=": ("{0} != {1}", "bool"),
+    "op:List.for": (None, None), "op:List.literal": (None, "List[T]"),      # statements: see render_builtin
     "op:IpAddr./": ("{0} / {1}", "Prefix"), "op:IpAddr.==": ("{0} == {1}", "bool"), "op:IpAddr.!=": ("{0} != {1}", "bool"),
     "op:Prefix.==": ("{0} == {1}", "bool"), "op:Prefix.!=": ("{0} != {1}", "bool"),
     "op:Asn.==": ("{0} == {1}", "bool"), "op:Asn.!=": ("{0} != {1}", "bool"),
@@ -450,8 +520,11 @@ def sink(expr, ty):
               "Asn": "out_asn"}
     for t in INT_TYPES + FLOAT_TYPES:
         simple[t] = "out_" + t
+    simple["()"] = "out_unit"
     if ty in simple:
         return "%s(%s);" % (simple[ty], expr)
+    if ty == "R":
+        return " ".join(sink("%s.%s" % (expr, f), VT_TYPE[ft]) for f, ft in REC_FIELDS)
     if ty in ("StringBytes", "StringChars", "StringLines"):
         return "out_u64(%s.len());" % expr
     if ty == "StringBuf":
@@ -477,10 +550,18 @@ def render_builtin(point, cargs, docs, fname):
         ptypes = [VT_TYPE[vt] for vt, _ in cargs]
     else:
         ptypes = [subst(pt) for _, pt in docs[name]["params"]]
+    if name == "op:List.literal":
+        # [e0, .., en-1]: n element expressions, each bound to a variable first
+        (vt, v), = cargs
+        evt = vt[5:]
+        for j, x in enumerate(v):
+            lines.append("let e%d: %s = %s;" % (j, VT_TYPE[evt], fetch(evt, x, ins) if mode == "arg" else lit(evt, x)))
+        lines.append("let r: %s = [%s];" % (ptypes[0], ", ".join("e%d" % j for j in range(len(v)))))
+        lines.append(sink("r", ptypes[0]))
+        return "fn %s() {\n    %s\n}\n" % (fname, "\n    ".join(lines)), ins
     for i, ((vt, v), pty) in enumerate(zip(cargs, ptypes)):
         if mode == "arg":
-            src = "in_%s(%d)" % (vt, len(ins))
-            ins.append({"t": vt, "v": enc(vt, v)})
+            src = fetch(vt, v, ins)
         else:
             src = lit(vt, v)
         base = VT_TYPE[vt]
@@ -494,6 +575,11 @@ def render_builtin(point, cargs, docs, fname):
             src = adapt[pty] % tmp
         lines.append("let a%d: %s = %s;" % (i, pty, src))
         names.append("a%d" % i)
+    if name == "op:List.for":
+        x = fresh()
+        lines.append("for %s in %s { %s }" % (x, names[0], sink(x, subst("T"))))
+        lines.append("out_u64(%s.len());" % names[0])
+        return "fn %s() {\n    %s\n}\n" % (fname, "\n    ".join(lines)), ins
     if name.startswith("op:"):
         fmt, ret = OP_SYNTAX[name]
         call, ret = fmt.format(*names), subst(ret)
@@ -548,6 +634,7 @@ class Plan:
     def __init__(self, tag):
         self.dir = vlib.workdir(PID, "scripts_" + tag, clean=True)
         self.scripts = {}       # file name -> list of function texts
+        self.preamble = {}      # file name -> declarations the functions of the file need
         self.cases = []         # harness cases aligned with self.points
         self.points = []
         self.texts = []         # function text per point (for replay files)
@@ -582,6 +669,8 @@ class Plan:
             text, ins = render_builtin(point, cargs, docs, fn)
             script = "bi_" + re.sub(r"[^A-Za-z0-9]+", "_", point["name"]) + "_" + re.sub(r"\W", "", point["elem"])
             self.scripts.setdefault(script, []).append(text)
+            if point["elem"] == "rec":
+                self.preamble[script] = REC_DECL
             case = {"script": self.path(script), "fn": fn, "entry": "unit", "ty": "", "args": [], "ins": ins}
         self.points.append(point)
         self.cases.append(case)
@@ -590,7 +679,7 @@ class Plan:
     def write(self):
         for name, fs in self.scripts.items():
             with open(self.path(name), "w", encoding="utf-8") as f:
-                f.write("".join(fs))
+                f.write(self.preamble.get(name, "") + "".join(fs))
 
     def run(self, tag, nproc=8):
         """execute all cases (grouped by script so that a worker compiles few scripts);
@@ -675,7 +764,7 @@ def describe(point, outcome, case, text, res):
                                                                         ("; stderr: " + err) if err else "")
 
 
-BORING = {"1", "2", "3", "10", "0.5", "ascii", "one", "three", "a", "present", "true", "false", "v4", "v4/24", "65535"}
+BORING = {"1", "2", "3", "10", "0.5", "ascii", "one", "two", "three", "a", "present", "true", "false", "v4", "v4/24", "65535"}
 
 
 def nontrivial(point):
@@ -748,16 +837,22 @@ def rnd_arg(k, rng, prev):
         return {"k": k, "c": "rnd", "n": rng.choice([0, 1, 2, 7, 8, 9, 16, 17, rng.randrange(0, 65)])}
     if k.startswith("Item:"):
         nonempty = prev and (prev[0].get("n", 1) > 0) and prev[0]["c"] != "empty"
+        if nonempty and k[5:] == "unit":
+            return {"k": k, "c": "present"}     # a single-valued type: nothing is absent from a non-empty list
         return {"k": k, "c": rng.choice(["present", "absent"]) if nonempty else "absent"}
     if k.startswith("Num:"):
         return dict(rnd_num_operand(k[4:], rng), k=k)
     raise vlib.ToolError("generator: unknown kind %s" % k)
 
 
-def rnd_builtin_point(spec_table, rng):
-    b = rng.choice(spec_table)
-    generic = any(p in ("L:T", "Item:T") for p in b["params"]) or b["name"] == "List.new"
-    elem = rng.choice(sorted(ELEM_TYPE)) if generic else "-"
+def is_generic(b):
+    return any(p in ("L:T", "Item:T") for p in b["params"]) or b["name"] == "List.new"
+
+
+def rnd_builtin_point(spec_table, rng, elems, generic_only=False):
+    b = rng.choice([x for x in spec_table if is_generic(x)] if generic_only else spec_table)
+    generic = is_generic(b)
+    elem = rng.choice(sorted(elems["size"])) if generic else "-"
     args = []
     for p in b["params"]:
         k = {"L:T": "L:" + elem, "Item:T": "Item:" + elem}.get(p, p)
@@ -901,6 +996,87 @@ def coverage_guard(points, spec_table, ev):
     ev.extra["points_per_item"] = counts
 
 
+def list_family_guard(points, gen, spec_table, elems, ev):
+    """anti-vacuity of the type-argument dimension: every generic built-in x element type of the spec (every size
+    class, the zero-sized one included) x mode, x every length class of every list argument, x the same index
+    classes for every element type; the generated points reach every element type too."""
+    size, lens = elems["size"], elems["len"]
+    missing_repr = sorted(set(size) - set(ELEM_TYPE))
+    if missing_repr:
+        raise vlib.ToolError("the check has no representation for the element types %s of NoCrash.ElemSize" % missing_repr)
+    classes = sorted(set(size.values()))
+    need_classes = ["0", "1", "2", "4", "8", "String", "List", "Option", "record"]
+    if classes != sorted(need_classes):
+        raise vlib.ToolError("NoCrash.ElemSize has the size classes %s, expected %s" % (classes, need_classes))
+    if not any(n > elems["growth"] for n in lens.values()) or not {0, 1, 2} <= set(lens.values()):
+        raise vlib.ToolError("NoCrash.LenOf lacks a length class (0, 1, 2, past the first allocation): %s" % lens)
+    for e in size:
+        for c, n in lens.items():
+            if len(LIST_CLASS[e][c]) != n:
+                raise vlib.ToolError("representative of List[%s] class %s does not have the length %d of the spec" % (e, c, n))
+    generic = [b for b in spec_table if is_generic(b)]
+    names = {b["name"] for b in generic}
+    for must in ("List.new", "List.push", "List.get", "List.len", "List.is_empty", "List.capacity", "List.swap",
+                 "List.concat", "List.contains", "List.index", "op:List.+", "op:List.==", "op:List.!=", "op:List.for",
+                 "op:List.literal"):
+        if must not in names:
+            raise vlib.ToolError("NoCrash.Builtins has no generic entry %s" % must)
+    seen_mode, seen_len, seen_idx, zero_search = {}, {}, {}, {}
+    per_class = {z: 0 for z in classes}
+    for p in points:
+        if p["kind"] != "builtin" or p["name"] not in names:
+            continue
+        e = p["elem"]
+        per_class[size[e]] += 1
+        seen_mode.setdefault((p["name"], e), set()).add(p["mode"])
+        for i, a in enumerate(p["args"]):
+            if a["k"].startswith("L:"):
+                seen_len.setdefault((p["name"], e, i), set()).add(a["c"])
+            if a["k"] == "Idx":
+                seen_idx.setdefault((p["name"], e), set()).add((i, a["c"]))
+        if size[e] == "0" and p["name"] in ("List.contains", "List.index"):
+            key = (p["name"], "empty" if p["args"][0]["c"] == "empty" else "non-empty", p["mode"])
+            zero_search[key] = zero_search.get(key, 0) + 1
+    missing = []
+    for b in generic:
+        idx_ref = None
+        for e in sorted(size):
+            if seen_mode.get((b["name"], e)) != {"lit", "arg"}:
+                missing.append("%s[%s] modes" % (b["name"], e))
+            for i, k in enumerate(b["params"]):
+                if k == "L:T" and seen_len.get((b["name"], e, i)) != set(lens):
+                    missing.append("%s[%s] lengths of argument %d" % (b["name"], e, i))
+            if "Idx" in b["params"]:
+                got = seen_idx.get((b["name"], e), set())
+                idx_ref = got if idx_ref is None else idx_ref
+                if got != idx_ref or len({c for _, c in got}) < 7:
+                    missing.append("%s[%s] index classes" % (b["name"], e))
+    for n in ("List.contains", "List.index"):
+        for r in ("empty", "non-empty"):
+            for m in ("lit", "arg"):
+                if not zero_search.get((n, r, m)):
+                    missing.append("%s on a %s list of zero-sized elements (%s)" % (n, r, m))
+    gen_per_class = {z: 0 for z in classes}
+    gen_elems = set()
+    for p in gen:
+        if p["kind"] == "builtin" and p["name"] in names:
+            gen_per_class[size[p["elem"]]] += 1
+            gen_elems.add(p["elem"])
+    missing += ["generated points with element type %s" % e for e in sorted(set(size) - gen_elems)]
+    if missing:
+        raise vlib.ToolError("the element-type dimension of the generic built-ins is not covered: %s (%d more)" %
+                             (missing[:8], max(0, len(missing) - 8)))
+    ev.extra["list_element_types_by_size_class"] = {z: sorted(e for e in size if size[e] == z) for z in classes}
+    ev.extra["list_length_classes"] = lens
+    ev.extra["generic_builtins_covered"] = len(generic)
+    ev.extra["generic_builtin_x_element_type_covered"] = len(seen_mode)
+    ev.extra["generic_builtin_x_element_type_x_list_argument_x_length_covered"] = sum(len(v) for v in seen_len.values())
+    ev.extra["generic_builtin_x_element_type_x_index_class_covered"] = sum(len(v) for v in seen_idx.values())
+    ev.extra["enumerated_generic_points_per_size_class"] = per_class
+    ev.extra["generated_generic_points_per_size_class"] = gen_per_class
+    ev.extra["zero_sized_contains_index_points"] = sum(zero_search.values())
+
+
 def spec_domain(tier, ev):
     cfg = "MCNoCrash.cfg" if tier == "quick" else "MCNoCrash_dense.cfg"
     r = run_tlc("MCNoCrash", cfg, workers=4, timeout=1500, heap="6g", coverage=False)
@@ -910,9 +1086,13 @@ def spec_domain(tier, ev):
     if len(tables) != 1:
         raise vlib.ToolError("MCNoCrash did not print its built-in table")
     spec_table = json.loads(vlib._unescape_tla(tables[0]))
+    etabs = [t for (tag, t) in r.prints if tag == "ELEMS"]
+    if len(etabs) != 1:
+        raise vlib.ToolError("MCNoCrash did not print its element-type table")
+    elems = json.loads(vlib._unescape_tla(etabs[0]))
     if not r.replay or r.distinct != 2 * len(r.replay) + 1:
         raise vlib.ToolError("MCNoCrash: %d states for %d emitted points" % (r.distinct, len(r.replay)))
-    return r.replay, spec_table
+    return r.replay, spec_table, elems
 
 
 def run(tier):
@@ -921,24 +1101,27 @@ def run(tier):
     vlib.build_harness(["c10"])
     ev.rule = ("cases = points of the NoCrash call domain: every point enumerated by TLC (operator x numeric type x "
                "edge operand pairs x {constants in the script, host arguments}; built-in x argument class tuples x the "
-               "same two modes) plus seeded concrete points; distinct = distinct point records; non-trivial = at least "
+               "same two modes; generic built-ins additionally x element type of NoCrash.ElemSize x list length classes) plus "
+               "seeded concrete points; distinct = distinct point records; non-trivial = at least "
                "one operand / argument is a boundary class (0, -1, MIN, MAX, HALF, inf, nan, len, len+1, 2^32, u64max, "
                "empty, multi-byte, lines, prefix length, ...) or a generated concrete value, i.e. not one of the plain "
                "representatives (1, 2, 'ascii', 'one', 'present', ...)")
     docs = doc_table()
-    cases, spec_table = spec_domain(tier, ev)
+    cases, spec_table, elems = spec_domain(tier, ev)
     check_table(spec_table, docs)
     points = [c["point"] for c in cases]
     expects = [c["expect"] for c in cases]
     coverage_guard(points, spec_table, ev)
     rng = random.Random(vlib.seed() * 31 + 10)
     hangs = []
-    # crash-prone items are interleaved with the rest by run order (script name), nothing to steer around
-    run_family("enum", points, expects, docs, rng, ev, verd, hangs)
-
     # seeded generator
     nop, nbi = (3000, 3000) if tier == "quick" else (100000, 80000)
-    gen = [rnd_op_point(rng) for _ in range(nop)] + [rnd_builtin_point(spec_table, rng) for _ in range(nbi)]
+    ngen = 1000 if tier == "quick" else 30000      # generic built-ins only: element type x generated lists / indices
+    gen = ([rnd_op_point(rng) for _ in range(nop)] + [rnd_builtin_point(spec_table, rng, elems) for _ in range(nbi)] +
+           [rnd_builtin_point(spec_table, rng, elems, generic_only=True) for _ in range(ngen)])
+    list_family_guard(points, gen, spec_table, elems, ev)
+    # crash-prone items are interleaved with the rest by run order (script name), nothing to steer around
+    run_family("enum", points, expects, docs, rng, ev, verd, hangs)
     run_family("rnd", gen, None, docs, rng, ev, verd, hangs)
     ev.extra["generated_points"] = len(gen)
     ev.extra["enumerated_points"] = len(points)
@@ -952,6 +1135,8 @@ def run(tier):
         "repeat counts <= 2^16 (except for the empty string), generated strings <= 48 code points, generated lists "
         "<= 64 elements: larger sizes are memory exhaustion, a documented limit",
         "one call per fresh argument set; sequences of calls are the business of C15/C03",
+        "type arguments of the generic built-ins: one element type per size class of NoCrash.ElemSize (two for 4 bytes); "
+        "other instantiations (other records, deeper nesting, Option of non-scalars) are not enumerated",
         "the property is decided for the x86-64 Cranelift backend of this machine",
     ]
     rc = verd.finish()
